@@ -27,18 +27,20 @@ META = {
                   "srctools._engine_db:BinStrDict.serialise", "srctools._engine_db:BinStrDict.unserialise",
                   "srctools._engine_db:EngineDB.get_ent", "srctools._engine_db:EngineDB._parse_block",
                   "srctools._engine_db:EngineDB.get_fgd", "srctools._engine_db:make_lookup"],
-    "bounds": "text: symbolic str (all code points; exact length per slice: quick 0..2 single slot / 0..1 x 0..1 two slots, "
-              "thorough 0..3 / 0..2 x 0..2) in one or two of: keyvalue display name / default / description, input+output "
-              "description, entity description, resource file name, choice label, spawnflag label, a 1001..1003-char description "
-              "(symbolic head + concrete tail with and without blanks/newlines: '+' splitting); every ValueTypes member, entity "
-              "kind, tag set, choice value (from a list of 10 tricky values), flag bit and helper by symbolic index from finite "
-              "lists; options custom_syntax / label_spawnflags / readonly / report symbolic bools. binary: one entity of every "
-              "kind with symbolic readonly/default/alias bits, flag power and value-type / resource-type index by symbolic index. "
-              "lazy: 7-entity 3-block database with same-block and cross-block aliases, every sequence of 3 queries "
-              "(thorough 4) out of the 7 class names by symbolic index, then the eager load",
-    "outside": "the complete bundled database as a symbolic object (it is one concrete input: only its cross-block aliases are "
-               "queried natively in both orders as a concrete supplement); the LZMA container and serialise()'s block packing "
-               "heuristic (needs >=512 shared strings); custom_syntax=False with '\"' or '\\\\' in text (documented lossy "
+    "bounds": "text: symbolic str (all code points; exact length per slice: quick 0..2 single slot / two slots with total <= 2, "
+              "thorough also readonly/report variants; numeric-looking alphabet {0-9 + - blank _ . e} up to length 2, thorough 3 / 2x2) "
+              "in one or two of: keyvalue display name / default / description; one symbolic leaf (len 0..1, thorough 2) among input / "
+              "output description, entity description, base description, resource file name, tagged keyvalue name / description, "
+              "choice label, spawnflag label; '+' splitting: CONCRETE 1027..1033-char texts of 7 kinds (blanks, none, newlines, an "
+              "escape sequence at the split position) with offset / slot / option by symbolic index; every ValueTypes member, entity "
+              "kind, tag set (5), choice value (10 tricky values), flag bit (6) by symbolic index from finite lists; options "
+              "custom_syntax / label_spawnflags / readonly / report symbolic bools. binary: a two-entity block + CBaseEntity with "
+              "symbolic readonly/default/alias bits, flag power and value-type / resource-type / kind index by symbolic index (one "
+              "free per slice). lazy: 7-entity 3-block database with same-block, cross-block and chained aliases, every sequence "
+              "of 1..3 queries (thorough 4) out of the 7 class names by symbolic index, then the eager load",
+    "outside": "the complete bundled database as a symbolic object (it is one concrete input: its custom-syntax text round trip "
+               "and its cross-block aliases in both query orders are run natively as concrete supplements); the LZMA container and serialise()'s block packing "
+               "heuristic (needs >=512 shared strings); symbolic characters inside 1000+-char strings (one path > 300 s); custom_syntax=False with '\"' or '\\\\' in text (documented lossy "
                "substitution), choice labels with '\"', '\\\\' or newline (always written in the legacy escaping), spawnflag "
                "labels with newline / leading blank / leading '[' (label convention), spawnflags keyvalues with a default or "
                "description, key/class/helper names as symbolic strings (they are dict keys: chosen from finite lists), "
@@ -136,7 +138,7 @@ def _parse(parts, joined=False):
     if joined:
         parts = ["".join(parts)]
     try:
-        g.parse_file(None, _FakeFile(parts), eval_bases=False, ignore_unknown_valuetype=True, encoding="utf8")
+        g.parse_file(None, _FakeFile(parts), eval_bases=True, ignore_unknown_valuetype=True, encoding="utf8")
     except TokenSyntaxError as exc:
         raise Fail("exported text does not parse: " + str(exc.mess)) from None
     return g
@@ -268,12 +270,15 @@ THIRDS = ["", "Some: text + [x] = (y) // z"]
 
 
 def h_kv(s: str, t: str, cs: bool, n: int, m: int, slots: str, vt: str, third: int, ro: bool = False, rep: bool = False,
-         joined: bool = False) -> None:
+         joined: bool = False, alpha: str = "") -> None:
     """One keyvalue; two of display name / default / description symbolic (exact lengths n, m), the third a constant."""
     from srctools.fgd import KVDef, ValueTypes
     assume(len(s) == n and len(t) == m)
     if not cs:
         assume(_plain_text(s) and _plain_text(t))
+    if alpha == "num":          # numeric-looking text: where the writer decides between a bare token and a quoted string
+        assume(all([(('0' <= c) & (c <= '9')) | (c == '+') | (c == '-') | (c == ' ') | (c == '_') | (c == '.') | (c == 'e')
+                    for c in s + t]))
     vals = {"disp": THIRDS[third], "default": THIRDS[third], "desc": THIRDS[third]}
     a, b = slots.split(",")
     vals[a] = s
@@ -788,6 +793,32 @@ def o_bundled_aliases(_exclude=None):
     return res
 
 
+def o_bundled_text(_exclude=None):
+    """Concrete supplement (engine=call, native): the complete shipped database (FGD.engine_dbase(), 1600+ entities) is exported
+    with custom_syntax=True, parsed back, compared field by field and exported again.  (custom_syntax=False is outside the
+    claim for it: its display names contain backslashes.)"""
+    import time
+    from srctools.fgd import FGD
+    t0 = time.perf_counter()
+    full = FGD.engine_dbase()
+    fail = None
+    n = len(full.entities)
+    for ls in (True, False):
+        try:
+            _roundtrip(full, True, ls)
+        except Fail as exc:
+            fail = {"label_spawnflags": ls, "message": str(exc)[:400]}
+            break
+    return {"verdict": "confirmed" if fail is None else "refuted", "queries": 2 * n, "solver_checks": 0, "solver_s": 0.0, "paths": 2 * n,
+            "cex": fail, "failure": fail, "unknown_reasons": {}, "samples": [{"entities": n}], "wall_s": round(time.perf_counter() - t0, 2)}
+
+
+def replay_o_bundled_text(**kw):
+    r = o_bundled_text()
+    if r["verdict"] == "refuted":
+        raise Fail("bundled database text round trip: " + repr(r["failure"]))
+
+
 def replay_o_bundled_aliases(**kw):
     r = o_bundled_aliases()
     if r["verdict"] == "refuted":
@@ -813,18 +844,28 @@ def obligations(tier):
             sl.append({"n": 0, "m": 1, "slots": "disp,default", "vt": vt, "third": 0})
         sl.append({"n": 2, "m": 0, "slots": "disp,desc", "vt": "STRING", "third": 0})
         sl.append({"n": 0, "m": 2, "slots": "disp,desc", "vt": "STRING", "third": 0})
+        # numeric-looking text (digits + - blank _ . e): the bare-token / quoted-string decision of the writer
+        for vt in ("INT", "STRING"):
+            sl.append({"n": 0, "m": 1, "slots": "disp,default", "vt": vt, "third": 0, "alpha": "num"})
+            sl.append({"n": 0, "m": 2, "slots": "disp,default", "vt": vt, "third": 0, "alpha": "num"})
+        sl.append({"n": 1, "m": 1, "slots": "default,desc", "vt": "INT", "third": 0, "alpha": "num"})
     else:
         for p in pairs:
-            for (n, m) in [(a, b) for a in (0, 1, 2) for b in (0, 1, 2) if a + b <= 3]:
+            for (n, m) in [(a, b) for a in (0, 1, 2) for b in (0, 1, 2) if a + b <= 2]:
                 for third in (0, 1):
                     sl.append({"n": n, "m": m, "slots": p, "vt": "STRING", "third": third})
         for vt in VT_REPR[1:]:
             for p in pairs:
-                for (n, m) in [(0, 0), (1, 0), (0, 1), (1, 1)]:
+                for (n, m) in [(0, 0), (1, 1)]:
                     sl.append({"n": n, "m": m, "slots": p, "vt": vt, "third": 0})
         for p in pairs:
             sl.append({"n": 1, "m": 1, "slots": p, "vt": "STRING", "third": 0, "ro": True, "rep": True})
-    obls.append(Obl("kv.text", MOD, "h_kv", slices=sl, budget_s=600 if q else 3000, per_path_s=40,
+        for vt in ("INT", "STRING", "BOOL"):
+            for (n, m) in [(0, 1), (0, 2), (0, 3)]:
+                sl.append({"n": n, "m": m, "slots": "disp,default", "vt": vt, "third": 0, "alpha": "num"})
+            sl.append({"n": 2, "m": 1, "slots": "default,desc", "vt": vt, "third": 0, "alpha": "num"})
+            sl.append({"n": 2, "m": 2, "slots": "default,disp", "vt": vt, "third": 0, "alpha": "num"})
+    obls.append(Obl("kv.text", MOD, "h_kv", slices=sl, budget_s=300 if q else 3000, per_path_s=40,
                     desc="keyvalue display name / default / description: parse(export(f)) == f and export is a fixed point; "
                          "custom_syntax symbolic",
                     bound="two symbolic slots with exact lengths per slice, third slot '' or a punctuation-rich constant"))
@@ -862,6 +903,8 @@ def obligations(tier):
                                            for n in ((1,) if q else (1, 2))]
     obls.append(Obl("plain.text", MOD, "h_plain", slices=sl, budget_s=600 if q else 2400, per_path_s=40,
                     desc="custom_syntax=False on an untagged entity (every kind in the n=0 slice)"))
+    obls.append(Obl("text.bundled", MOD, "o_bundled_text", engine="call", replay="replay_o_bundled_text", budget_s=300,
+                    desc="concrete supplement: the complete shipped database exported (custom syntax), re-parsed, compared, re-exported (native)"))
     # --- long strings
     obls.append(Obl("long.text", MOD, "h_long", slices=[{"kind": k} for k in LONG_KINDS], budget_s=900, per_path_s=120,
                     desc="'+' splitting of strings crossing the 1000-char limit: 7 kinds of content (blanks, none, newlines, an escape "
